@@ -300,7 +300,60 @@ class CallMixin:
             raise Unsupported('inline depth exceeded at %s' % fv.qualname)
         if not (inline_req or self.flag('auto_inline', True)):
             raise Unsupported('call to %s without contract' % fv.qualname)
-        return self.inline_call(fv, args, kwargs, st, fr, node, dyn_cls)
+        memo = self.wrapping_decorators(fv)
+        res = self.inline_call(fv, args, kwargs, st, fr, node, dyn_cls)
+        if memo:
+            res = self.memoised_result(fv, res, args, kwargs, st)
+        return res
+
+    TRANSPARENT_DECORATORS = ('staticmethod', 'classmethod', 'property', 'abstractmethod', 'cython.')
+
+    def wrapping_decorators(self, fv):
+        """Decorators change what a call does; the body alone is not the callee.  Transparent ones (cython directives, staticmethod, ...) are
+        ignored; memoising ones (lru_cache, cache) are modelled (see memoised_result); anything else leaves the verifiable subset."""
+        memo = False
+        for d in getattr(fv.node, 'decorator_list', None) or []:
+            txt = ast.unparse(d)
+            head = txt.split('(')[0]
+            if head.startswith(self.TRANSPARENT_DECORATORS) or head.endswith(('.setter', '.getter', '.deleter')) or head.split('.')[-1] in ('staticmethod', 'classmethod', 'property'):
+                continue
+            if head.split('.')[-1] in ('lru_cache', 'cache', 'cached', 'memoize', 'memoized'):
+                memo = True
+                continue
+            raise Unsupported('callee %s is wrapped by the decorator @%s, whose effect is not modelled' % (fv.qualname, txt[:60]))
+        return memo
+
+    def memoised_result(self, fv, res, args, kwargs, st):
+        """@lru_cache / @cache: equal arguments give THE SAME result object on every call, shared by all callers - the result is not a freshly
+        allocated object.  Model: the object is a pure function MEMO_f(args), allocated before this call (alloc0), with the length / contents the
+        body computed.  Scalars are returned as they are (sharing an immutable value is unobservable)."""
+        if not isinstance(res, Obj):
+            if isinstance(res, (tuple, list, dict)):
+                raise Unsupported('memoised callee %s returns a container' % fv.qualname)
+            return res
+        if res.kind != 'arr' or res.view is not None:
+            raise Unsupported('memoised callee %s returns an object that is not a plain array' % fv.qualname)
+        terms = []
+        for v in list(args) + [kwargs[k] for k in sorted(kwargs)]:
+            if isinstance(v, Obj) or v is None:
+                terms.append(to_ref(v))
+            elif isinstance(v, bool) or is_bool(v):
+                terms.append(to_bool_term(v))
+            elif isinstance(v, str) or is_str(v):
+                terms.append(to_str(v))
+            elif isinstance(v, (tuple, list, dict)):
+                raise Unsupported('memoised callee %s called with a container argument' % fv.qualname)
+            else:
+                terms.append(to_real(v))
+        f = z3.Function('MEMO_%s_%d' % (fv.qualname.replace('.', '_'), len(terms)), *[t.sort() for t in terms], Ref)
+        m = f(*terms) if terms else z3.Const('MEMO_%s' % fv.qualname.replace('.', '_'), Ref)
+        st.pc.append(alloc0(m))
+        st.pc.append(m != NONE)
+        for fid in (['$len'] if res.ndim == 1 else ['$n%d' % k for k in range(res.ndim)]) + [self.arr_fid(res)]:
+            h = self.field(st, fid)
+            st.heap[fid] = z3.Store(h, m, z3.Select(h, res.ref))
+        self.assumptions.add('memoised callee %s: one shared result object per argument tuple (functools cache semantics)' % fv.qualname)
+        return Obj(m, res.cls, res.kind, res.elem, res.ndim)
 
     def bind_params(self, fnode, args, kwargs, st, frame, cls=None):
         a = fnode.args
@@ -656,6 +709,10 @@ class CallMixin:
             return self.power(xs[0], xs[1], 'real', args[1], st, fr)
         if name in UF2:
             return UF2[name](xs[0], xs[1])
+        if name == 'isnan' and self.flag('nan_predicate'):
+            # NaN used as a SENTINEL (e.g. "not sampled yet"): an uninterpreted predicate on the stand-in reals; nothing is assumed about which
+            # reals carry the mark or about arithmetic on marked values - contracts must establish `not isnan(v)` before relying on a value
+            return z3.Function('IS_NAN', z3.RealSort(), z3.BoolSort())(xs[0])
         if name == 'isnan' or name == 'isinf':
             return False      # reals stand in for doubles: no NaN / Inf (stated assumption)
         if name == 'isfinite':
